@@ -303,3 +303,202 @@ def compare(exp, got, addr):
         if g['end'] != x['end']:
             return ('end comment', 'entry %d: words after the last instruction %s, expected %s' % (ei, g['end'], x['end']))
     return None
+
+# ------------------------------------------------------------------------------------------ C18.4 tables and lists (*fold*)
+SHORT = 'A B HL 12 x1 up lo hi on off'.split()
+
+def gen_table(rnd):
+    """-> (macro text without flag, rows) ; rows = list of cells (column index, colspan, words); column 1 is wrappable when `wrap`"""
+    ncols = rnd.choice((2, 3))
+    wrap = rnd.random() < 0.7
+    longw = rnd.random() < 0.25
+    wcol = 1
+    classes = ['default'] + ['', ':w' if wrap else '', ''][:ncols]
+    rows = []
+    text = '#TABLE(%s)' % ','.join(classes)
+    if rnd.random() < 0.6:
+        cells = [(c, 1, [rnd.choice(('Name', 'Meaning', 'Notes', 'Reg'))], '=h ') for c in range(ncols)]
+        rows.append(cells)
+    for r in range(rnd.randrange(1, 5)):
+        cells = []
+        c = 0
+        while c < ncols:
+            span = 1
+            if c == wcol and ncols == 3 and rnd.random() < 0.5:
+                span = 2
+            if c == wcol:
+                vocab = C03pipe.PLAIN[:14] if longw else C03pipe.PLAIN[:12]
+                ws = C03pipe.text(rnd, 8 if span > 1 and wrap else 1, 18 if wrap else 4, vocab).split()
+            elif c == ncols - 1 and rnd.random() < 0.25:
+                ws = []
+            else:
+                ws = [rnd.choice(SHORT)]
+            cells.append((c, span, ws, '=c%d ' % span if span > 1 else ''))
+            c += span
+        rows.append(cells)
+    for cells in rows:
+        text += ' { ' + ' | '.join((attr + ' '.join(ws)).rstrip() if ws or attr else '' for _, _, ws, attr in cells) + ' }'
+    text = text.replace('|  }', '| }').replace('{  |', '{ |')
+    return text + ' TABLE#', rows, ncols, wrap
+
+def gen_list(rnd):
+    items = [C03pipe.text(rnd, 1, 22, C03pipe.PLAIN[:14]).split() for _ in range(rnd.randrange(1, 5))]
+    return '#LIST ' + ' '.join('{ %s }' % ' '.join(ws) for ws in items) + ' LIST#', items
+
+def table_columns(lines, starts):
+    """per-column word sequences of a rendered ASCII table (no row spans, no transparent cells); `starts` = the columns some cell starts
+    in (a boundary no cell starts at is invisible); None if the table is not a rectangle with those boundaries"""
+    if not lines or len({len(l) for l in lines}) != 1:
+        return None
+    bounds = set()
+    for l in lines:
+        if l.startswith('+'):
+            if not (set(l) <= set('+-')):
+                return None
+            bounds |= {i for i, ch in enumerate(l) if ch == '+'}
+        elif l.startswith('|'):
+            bounds |= {i for i, ch in enumerate(l) if ch == '|'}
+        else:
+            return None
+    bounds = sorted(bounds)
+    if len(bounds) != len(starts) + 1 or bounds[0] != 0 or bounds[-1] != len(lines[0]) - 1:
+        return None
+    cols = {c: [] for c in starts}
+    for l in lines:
+        if l.startswith('|'):
+            cuts = [k for k, i in enumerate(bounds) if l[i] == '|']
+            if cuts[0] != 0 or cuts[-1] != len(bounds) - 1:
+                return None
+            for a, b in zip(cuts, cuts[1:]):
+                cols[starts[a]] += l[bounds[a] + 1:bounds[b]].split()
+    return cols
+
+def fits(rows, ncols, max_width):
+    """can the table be laid out within max_width?  Non-wrappable columns need their widest cell, the wrappable column (1) its longest
+    word (at least the minimum wrap column width 10); borders take 3 per column + 1"""
+    need = [0] * ncols
+    for cells in rows:
+        for c, span, ws, attr in cells:
+            if c == 1:
+                need[1] = max([need[1], 10] + [len(w) for w in ws])
+            elif span == 1:
+                need[c] = max(need[c], len(' '.join(ws)))
+    return 3 * (ncols + 1) - 2 + sum(need) <= max_width
+
+def blocks_rule(ctx, repo):
+    n = 120 if ctx.tier == 'thorough' else 24
+    ctx.rule('C18.4-blocks', '#TABLE / #LIST blocks (plain, <nowrap>, <wrapalign>) in entry descriptions through the folded sna2skool and skool2asm on %d generated inputs: sna2skool keeps every word in order; skool2asm renders a rectangular table whose columns hold the cells\' words in order, within the line width when a column is wrappable; list items keep their words and fit the width' % n, floor=2 * n - 8)
+    rnd = random.Random(1804 + ctx.seed)
+    P = C04pipe.Both(repo)
+    where_s = 'skoolkit/snaskool.py'
+    where_a = 'skoolkit/skoolasm.py, skoolkit/skoolutils.py'
+    seen = set()
+    def report(key, where, msg):
+        if key not in seen:
+            seen.add(key)
+            ctx.violation(key, where, msg)
+    for k in range(n):
+        is_table = k % 3 != 2
+        if is_table:
+            block, rows, ncols, wrap = gen_table(rnd)
+        else:
+            block, items = gen_list(rnd)
+        flag = rnd.choice(('', '', '<nowrap>', '<wrapalign>'))
+        if flag:
+            i = block.index(')') + 1 if is_table else len('#LIST')
+            if not is_table:
+                block = '#LIST()' + block[len('#LIST'):]
+                i = len('#LIST()')
+            block = block[:i] + flag + block[i:]
+        before = C03pipe.text(rnd, 2, 12, C03pipe.PLAIN)
+        after = C03pipe.text(rnd, 2, 12, C03pipe.PLAIN)
+        start = 40000
+        snap = [0] * 65536
+        snap[start:start + 3] = [1, 2, 3]
+        ctl = ['@ %d start' % start, '@ %d org' % start, 'b %d Title words' % start, 'D %d %s' % (start, before), 'D %d %s' % (start, block), 'D %d %s' % (start, after), 'B %d,3,3' % start, 'i %d' % (start + 3)]
+        width = rnd.choice((79, 60, 100))
+        name = 'case %d: D paragraph `%s`, sna2skool -w %d' % (k, block, width)
+        try:
+            s1 = P.sna2skool(snap, ctl, start, start + 3, line_width=width, ListRefs=0, ctl_range=(0, 65536))
+        except NotLiteral as e:
+            ctx.limit('blocks', 'not foldable (%s): %s' % (name[:200], e))
+            continue
+        head = [l[1:].strip() for l in s1 if l.startswith(';')]
+        got = [w for l in head for w in l.split() if l != '.']
+        want = 'Title words'.split() + before.split() + block.split() + after.split()
+        if [w for w in got if w != '.'] != want:
+            report('sna2skool block words', where_s, 'sna2skool: the words of the description are %s, the control file has %s; %s' % (got, want, name))
+        else:
+            ctx.ok({'case': k, 'tool': 'sna2skool', 'block': block[:40]} if k % 8 == 0 else None)
+        if flag != '<nowrap>':
+            long_ = [l for l in s1 if l.startswith(';') and len(l) > width and len(l[1:].split()) > 1]
+            if long_:
+                report('sna2skool block width', where_s, 'sna2skool -w %d wrote %r (%d characters); %s' % (width, long_[0], len(long_[0]), name))
+        # skool2asm
+        awidth = rnd.randrange(52, 101)
+        try:
+            P.files['in.skool'] = [l + '\n' for l in s1]
+            P.stdout, P.warnings = [], []
+            cfp = P.cf.sibling('skoolparser')
+            parser = cfp.new('SkoolParser', 'in.skool', 0, 0, 1, False, 0, False, False, True, ('L{address}', '{main}_{index}'), 0, 65536, ())
+            props = dict(parser.properties)
+            props['warnings'] = '1'
+            props['line-width'] = str(awidth)
+            cfa = P.cf.sibling('skoolasm')
+            w = cfa.new('AsmWriter', parser, props, {}, dict(P.asm_config))
+            cfa.call(w, 'write')
+            asm = ''.join(P.stdout).split('\n')
+            warnings = list(P.warnings)
+        except NotLiteral as e:
+            ctx.limit('blocks', 'skool2asm not foldable (%s): %s' % (name[:200], e))
+            continue
+        except (KeyError, IndexError, ValueError, TypeError, AttributeError) as e:
+            report('skool2asm block failure', where_a, 'skool2asm fails with %s: %s; %s' % (type(e).__name__, e, name))
+            continue
+        paras = [[]]
+        for l in asm:
+            if l.startswith(';'):
+                t = l[1:].rstrip()
+                if t.strip() == '':
+                    paras.append([])
+                else:
+                    paras[-1].append(t[1:] if t.startswith(' ') else t)
+        paras = [p for p in paras if p]
+        aname = '%s; skool2asm line-width %d; ASM comment lines %s; warnings %s' % (name, awidth, [l for l in asm if l.startswith(';')], warnings[:2])
+        if len(paras) != 4 or ' '.join(paras[0]).split() != ['Title', 'words'] or ' '.join(paras[1]).split() != before.split() or ' '.join(paras[3]).split() != after.split():
+            report('skool2asm block paragraphs', where_a, 'skool2asm: expected title, text, block and text paragraphs with their words; %s' % aname)
+            continue
+        body = paras[2]
+        if is_table:
+            want_cols = {}
+            for cells in rows:
+                for c, span, ws, attr in cells:
+                    want_cols.setdefault(c, [])
+                    want_cols[c] += ws
+            cols = table_columns(body, sorted(want_cols))
+            if cols is None:
+                report('skool2asm table shape', where_a, 'skool2asm: the rendered table is not a rectangle with %d columns; %s' % (ncols, aname))
+            elif cols != want_cols:
+                report('skool2asm table cells', where_a, 'skool2asm: the columns of the rendered table hold %s, the cells of the table hold %s; %s' % (cols, want_cols, aname))
+            elif wrap and fits(rows, ncols, awidth - 2) and (max(len(l) for l in body) + 2 > awidth or any('Table in entry' in x for x in warnings)):
+                report('skool2asm table width', where_a, 'skool2asm: a table whose wrappable column leaves room (every word fits a column of the remaining width) is %d characters wide (with the comment prefix) at line width %d, or a width warning was given; %s' % (max(len(l) for l in body) + 2, awidth, aname))
+            elif max(len(l) for l in body) + 2 > awidth and not any('Table in entry' in x for x in warnings):
+                report('skool2asm table warning', where_a, 'skool2asm: a table of %d characters at line width %d without a warning; %s' % (max(len(l) for l in body) + 2, awidth, aname))
+            else:
+                ctx.ok({'case': k, 'tool': 'skool2asm', 'table': '%d columns' % ncols} if k % 8 == 0 else None)
+        else:
+            gotw = []
+            for l in body:
+                ws = l.split()
+                if l.startswith('* '):
+                    gotw.append(ws[1:])
+                elif gotw:
+                    gotw[-1] += ws
+                else:
+                    gotw.append(ws)
+            if gotw != items:
+                report('skool2asm list items', where_a, 'skool2asm: the list items hold %s, expected %s; %s' % (gotw, items, aname))
+            elif any(len(l) + 2 > awidth and len(l.split()) > 2 for l in body):
+                report('skool2asm list width', where_a, 'skool2asm: a list line is longer than the line width %d; %s' % (awidth, aname))
+            else:
+                ctx.ok({'case': k, 'tool': 'skool2asm', 'list': len(items)} if k % 8 == 0 else None)
